@@ -9,6 +9,7 @@ from corr import pdulib as L
 
 ID = 'C12'
 TARGETS = ['SmppVerif.Props.C12']
+THOROUGH_ROUNDS = 5
 RULE = ('generated instances of all 15 classes (field space of C03 plus: log_id/extra_data over ASCII, quotes, back-slashes, '
         'control characters, non-BMP and lone surrogates; every status member on every class that keeps it; aware datetimes with '
         'whole-minute, whole-second and negative offsets, naive ones, microseconds 0 and not 0, years 1..9999; timedeltas with '
